@@ -194,6 +194,15 @@ class Recorder:
                 await net.sleep_until(st['t'])
             elif op == 'bstart':
                 self.start_browser(st)
+            elif op == 'busy_at':
+                # loop latency: a callback that runs at instant st['when'] keeps the loop busy for st['ms'] milliseconds; the timers
+                # that fall due meanwhile fire late, and read the clock when they fire
+                lp = self.net.loop
+
+                def block(ms: int = st['ms']) -> None:
+                    lp.vtime_us += ms * 1000
+                lp.call_at(st['when'] / 1000.0, block)
+                self.ev('busy', **{'from': st['when'], 'until': st['when'] + st['ms']})
             elif op == 'recv':
                 data = build_ptr_datagram(self.voc, st['items'])
                 self.items_by_data[data] = st['items']
@@ -436,6 +445,31 @@ def gen_c13_unwritable(rng: random.Random, sid: str, thorough: bool = False) -> 
     steps += [{'op': 'at', 't': bs}, {'op': 'bstart', 'types': [T1, T2], 'delay': 10000, 'forced': rng.choice(['none', 'none', 'QM'])}]
     steps.append({'op': 'at', 't': bs + 16000})
     return {'id': sid, 'n1': n1, 'n2': n2, 'seed': rng.randint(0, 10 ** 9), 'steps': steps, 'rand': {'first': r, 'tc': 437}}
+
+
+def gen_c13_late(rng: random.Random, sid: str, thorough: bool = False) -> dict:
+    """A start-up query that is sent late (the application keeps the loop busy when it falls due) while a cached pointer crosses half
+    of its TTL between the instant the query was due and the instant it is sent: the known answers are those of the instant of
+    sending, with the TTLs that remain then."""
+    n1, n2 = 6, 2
+    r = rng.randint(20, 120)
+    ttl = rng.choice([1200, 1125, 4500])
+    learn = 1000
+    half = learn + ttl * 500
+    k = rng.randint(0, 3)                                # which of the four start-up queries
+    off = [0, 1000, 5000, 14000][k]
+    lead = rng.choice([1, 200, 900])                     # the query is due `lead` ms before the record goes stale ...
+    bs = half - lead - off - r
+    busy = lead + rng.choice([1, 300, 1500])             # ... and sent that much later
+    other = rng.sample(range(3, n1 + 1), 2)
+    steps: List[dict] = [{'op': 'at', 't': 0}, {'op': 'at', 't': learn},
+                         {'op': 'recv', 'items': [{'id': 2, 'ttl': ttl, 'sp': 0}]},
+                         {'op': 'at', 't': learn + 1000},
+                         {'op': 'recv', 'items': [{'id': i, 'ttl': 4500, 'sp': 0} for i in other]},
+                         {'op': 'at', 't': bs}, {'op': 'bstart', 'types': [T1], 'delay': 10000, 'forced': rng.choice(['none', 'QM'])},
+                         {'op': 'busy_at', 'when': bs + r + off - 1, 'ms': busy + 1},
+                         {'op': 'at', 't': bs + 16000}]
+    return with_group(rng, {'id': sid, 'n1': n1, 'n2': n2, 'seed': rng.randint(0, 10 ** 9), 'steps': steps, 'rand': {'first': r, 'tc': 437}})
 
 
 def gen_c13_suppress(rng: random.Random, sid: str, thorough: bool = False) -> dict:
